@@ -32,11 +32,13 @@ struct Plan {
 
 fn gen_plan(ctx: &mut Ctx) -> Plan {
     let period = PERIODS[ctx.tape.weighted(&[3; 14])];
-    let n = 2 + ctx.pick(if ctx.tier == Tier::Thorough { 14 } else { 8 });
+    // one plan in 12 is a long outage: 34-80 attempts in a row fail (days to months of virtual time)
+    let long = ctx.chance(1, 12);
+    let n = if long { 34 + ctx.pick(47) } else { 2 + ctx.pick(if ctx.tier == Tier::Thorough { 14 } else { 8 }) };
     let mut attempts = Vec::new();
     let mut horizon_ms: u64 = 0;
     for _ in 0..n {
-        let kind = match ctx.tape.weighted(&[6, 6, 4, 2, 1]) {
+        let kind = match ctx.tape.weighted(if long { &[0, 8, 2, 1, 1] } else { &[6, 6, 4, 2, 1] }) {
             0 => AttemptKind::Succeed,
             1 => AttemptKind::FailConnect,
             2 => AttemptKind::FailAtRequest(ctx.pick(7)),
@@ -44,7 +46,7 @@ fn gen_plan(ctx: &mut Ctx) -> Plan {
             _ => AttemptKind::Panic,
         };
         // job duration: 0 .. 3 periods (7 requests, each with a send and a reply delay)
-        let dur_ms = match ctx.tape.weighted(&[4, 2, 1, 1]) {
+        let dur_ms = match ctx.tape.weighted(if long { &[6, 2, 0, 0] } else { &[4, 2, 1, 1] }) {
             0 => 0,
             1 => ctx.pick(1000) as u64,
             2 => period * 1000 / 2,
@@ -58,8 +60,12 @@ fn gen_plan(ctx: &mut Ctx) -> Plan {
     // the k-th signal is raised at (k+1) (mod 10) ms: a signal never coincides with a timer deadline,
     // not even with those that follow an earlier SIGHUP-triggered run, nor with another signal
     let mut signals = Vec::new();
-    let n_hup = ctx.tape.weighted(&[3, 3, 2, 1]);
+    let n_hup = if long { 0 } else { ctx.tape.weighted(&[3, 3, 2, 1]) };
     let mut times: Vec<u64> = (0..=n_hup).map(|_| ctx.pick((horizon_ms / 10) as usize) as u64 * 10).collect();
+    if long {
+        // the outage is over (and the daemon stopped) only in the last quarter of the horizon
+        times[0] = horizon_ms / 4 * 3 / 10 * 10 + times[0] / 4 / 10 * 10;
+    }
     times.sort_unstable();
     let term = if ctx.pick(2) == 0 { Sig::Term } else { Sig::Int };
     for (k, t) in times.iter().enumerate() {
@@ -185,6 +191,9 @@ fn run(ctx: &mut Ctx) -> Verdict {
     let mut consecutive = 0usize;
     let mut prev_delay: Option<u64> = None;
     ctx.nontrivial = attempts.len() >= 3;
+    if attempts.len() > 33 {
+        ctx.count("probe.more_than_33_connection_attempts_in_one_run");
+    }
     for i in 1..attempts.len() {
         let Some((end, failed)) = ends[i - 1] else {
             return Verdict::violation("harness-error", format!("attempt #{} has no observed end but attempt #{i} exists", i - 1));
@@ -195,6 +204,9 @@ fn run(ctx: &mut Ctx) -> Verdict {
         }
         if failed {
             consecutive += 1;
+            if consecutive == 33 {
+                ctx.count("probe.thirty_three_consecutive_failures");
+            }
         } else {
             consecutive = 0;
             prev_delay = None;
@@ -249,7 +261,7 @@ pub static C19: PropSpec = PropSpec {
     runs: |t| if t == Tier::Thorough { 2_000_000 } else { 15_000 },
     enumerated: |t| super::c19_proc::scenarios(t == Tier::Thorough),
     run,
-    rule: "enumerated (process part): the agent executable (argument parsing, real signal handlers, real clock) with -f {0, 1, 45, 100, 3600, 86400} against a closed loopback port; -f 0 must make exactly one attempt, not start the loop and exit by itself with a failure status; a daemon must run its first job at once, announce 60 s first and then delays that never shrink, grow while below max(60 s, period) and never exceed it (2-4 failing jobs, each further one started by a real SIGHUP within 10 s), and exit with status 0 within 10 s of a real SIGTERM / SIGINT. seeded: the real Loop::start with a period from {1 s .. 1 day} (below and above the 60 s initial back-off); 2-10 (thorough: 2-16) scripted connection attempts (succeed against FakeJunos / fail at connect / rpc-error or disconnect at a seeded request / the job panics) with job durations 0 .. 3 periods of virtual time; 0-3 SIGHUPs and a final SIGINT or SIGTERM raised (libc::raise) at seeded virtual instants, while waiting and while a job runs. Oracle over the timeline of connection attempts and job ends: first run at once; after success one period; after the c-th consecutive failure a delay of 60 s first, never shrinking, growing while below the cap, never above max(60 s, period), never zero without SIGHUP; SIGHUP while waiting => run at that instant; SIGINT/SIGTERM while waiting => clean exit at that instant, no later attempt. Non-trivial = at least three attempts; distinct = distinct event-log hash",
+    rule: "enumerated (process part): the agent executable (argument parsing, real signal handlers, real clock) with -f {0, 1, 45, 100, 3600, 86400} against a closed loopback port; -f 0 must make exactly one attempt, not start the loop and exit by itself with a failure status; a daemon must run its first job at once, announce 60 s first and then delays that never shrink, grow while below max(60 s, period) and never exceed it (2-4 failing jobs, each further one started by a real SIGHUP within 10 s), and exit with status 0 within 10 s of a real SIGTERM / SIGINT. seeded: the real Loop::start with a period from {1 s .. 1 day} (below and above the 60 s initial back-off); 2-10 (thorough: 2-16) scripted connection attempts, in one plan of 12 a long outage of 34-80 failing attempts in a row without SIGHUP (succeed against FakeJunos / fail at connect / rpc-error or disconnect at a seeded request / the job panics) with job durations 0 .. 3 periods of virtual time; 0-3 SIGHUPs and a final SIGINT or SIGTERM raised (libc::raise) at seeded virtual instants, while waiting and while a job runs. Oracle over the timeline of connection attempts and job ends: first run at once; after success one period; after the c-th consecutive failure a delay of 60 s first, never shrinking, growing while below the cap, never above max(60 s, period), never zero without SIGHUP; SIGHUP while waiting => run at that instant; SIGINT/SIGTERM while waiting => clean exit at that instant, no later attempt. Non-trivial = at least three attempts; distinct = distinct event-log hash",
     components: &[
         ("agent executable: bin/bgpfu-junos-agent.rs, cli.rs (Frequency parsing, one-shot / daemon selection), task.rs loop with tokio's real signal handlers and the real clock", "real, enumerated scenarios only: target/release/agentbin as a child process"),
         ("junos-agent task.rs (Loop::start, Updater::run), netconf/mod.rs", "real"),
